@@ -10,6 +10,7 @@ E == Rec[l]
 Report(kind, detail) == PrintT(<<"VIOL", ToJson([sc |-> E.sc, line |-> l, kind |-> kind, detail |-> detail])>>)
 Flag(c, kind, detail) == IF c THEN Report(kind, detail) ELSE TRUE
 D == [steps |-> E.steps, why |-> E.why]
+MaxGrowthMb == 256
 Step ==
   /\ l <= Len(Rec) /\ l' = l + 1 /\ UNCHANGED hvars
   /\ Flag(~E.alive, "pooler_terminated", D)
@@ -18,6 +19,9 @@ Step ==
   /\ Flag(E.alive /\ ~E.after_own, "other_client_got_foreign_result", D)
   /\ Flag(E.alive /\ ~E.after_clean, "connection_handed_over_unclean", D)
   /\ Flag(E.alive /\ E.after_ok /\ ~E.capacity_ok, "server_connection_out_of_service", D)
+  \* the sender's few bytes (every case sends less than 1 kB) made the pooler take hundreds of megabytes: on a machine with
+  \* less memory or under load this is what blocks the other clients or gets the pooler killed
+  /\ Flag(E.rss_growth_mb > MaxGrowthMb, "pooler_memory_taken_by_a_few_bytes", [steps |-> E.steps, rss_growth_mb |-> E.rss_growth_mb])
 TInit == HInit /\ l = 1
 TSpec == TInit /\ [][Step]_<<hvars, l>>
 Accepted == /\ PrintT(<<"MATCHED", ToString(TLCGet("stats").diameter - 1)>>)
